@@ -34,7 +34,7 @@ from ._cim_obj import CIMInstance, CIMInstanceName, CIMClass, CIMClassName, \
 from ._cim_types import CIMInt, CIMFloat, CIMDateTime
 from ._exceptions import CIMError
 from ._logging import LOGGER_API_CALLS_NAME, LOGGER_HTTP_NAME
-from ._utils import _ensure_unicode, _format
+from ._utils import _format
 
 
 __all__ = ['BaseOperationRecorder', 'TestClientRecorder',
@@ -735,6 +735,18 @@ class LogOperationRecorder(BaseOperationRecorder):
         self._http_response_headers = headers
         self._http_response_conn_id = conn_id
 
+    @staticmethod
+    def _payload_to_unicode(payload):
+        """
+        Return the (possibly truncated) HTTP payload as a unicode string for
+        logging. Byte sequences that are not valid UTF-8 (e.g. a multi-byte
+        sequence cut by the truncation, or an ill-formed response) are
+        replaced, so that logging never fails because of the payload.
+        """
+        if isinstance(payload, bytes):
+            return payload.decode('utf-8', errors='replace')
+        return payload
+
     def stage_http_response2(self, payload):
         """Log complete http response, including response1 and payload"""
 
@@ -754,10 +766,10 @@ class LogOperationRecorder(BaseOperationRecorder):
             if self.http_detail_level == 'summary':
                 upayload = ""
             elif self.http_maxlen and (len(payload) > self.http_maxlen):
-                upayload = (_ensure_unicode(payload[:self.http_maxlen]) +
-                            '...')
+                upayload = (self._payload_to_unicode(
+                    payload[:self.http_maxlen]) + '...')
             else:
-                upayload = _ensure_unicode(payload)
+                upayload = self._payload_to_unicode(payload)
             upayload = repr(upayload)
             if upayload.startswith("u'"):
                 upayload = upayload[1:]
